@@ -84,6 +84,18 @@ def exhaustive(chk, kind, keys, n, eqm, hm, name):
                 equal = nodes[ka]["v"] == nodes[kb]["v"]
                 lines.append("let %s = (%s == %s, %s);\n" % (rn, na, nb, "%s.hash() == %s.hash()" % (na, nb) if equal else "true"))
                 rels.append((rn, ka, kb, equal))
+        # the same contents inserted afresh in descending key order (another order inside every shared bucket)
+        twins = {}
+        for key, nm in list(names.items()):
+            c = nodes.get(key)
+            if c is None or c["err"] or len(c["v"]) < 2 or json.dumps(c["v"]) in twins:
+                continue
+            twins[json.dumps(c["v"])] = nm
+            items = sorted(c["v"], reverse=True)
+            tw = "n0" + "".join((".set(%d, %d)" % (it[0], it[1])) if kind == "map" else (".add(%d)" % it) for it in items)
+            rn = "r%d" % len(rels)
+            lines.append("let %s = (%s == %s, %s.hash() == (%s).hash());\n" % (rn, nm, tw, nm, tw))
+            rels.append((rn, key, key, True))
         jid = "%s-g%d" % (name, gi)
         jobs.append({"id": jid, "src": "".join(lines), "observe": list(names.values()) + [r[0] for r in rels], "limits": {"calls": 2000000}, "timeout_ms": 60000})
         jmeta[jid] = names
